@@ -302,6 +302,7 @@ def install_stubs(eng):
                                                     text=repr(deref_all(a[1]))), UNIT)[1]
     eng.stubs['logs::meta'] = eng.stubs['meta']
     eng.stubs['logs::write'] = lambda e, ci, a, sp: UNIT
+    install_ouroboros_stubs(eng)
     eng.summaries['symlink_metadata'] = lambda e, ci, a, sp: e.world.stat(e, a[0], False)
     eng.summaries['fs::symlink_metadata'] = eng.summaries['symlink_metadata']
     eng.summaries['Path::symlink_metadata'] = eng.summaries['symlink_metadata']
@@ -322,3 +323,21 @@ def load_file(eng, ptx_ref, rowid):
     r = eng.call('state::File::from_id', [ptx_ref, rowid], None, None)
     assert r.var == 'Ok', r
     return r.f[0]
+
+
+def install_ouroboros_stubs(eng):
+    """`Files::list` keeps a Statement and the Rows borrowed from it in an ouroboros self-referencing struct; the generated
+    builder/accessor plumbing is replaced by a plain pair (no crate logic lives there)"""
+    def try_build(e, ci, a, sp):
+        b = a[0]
+        stmt_cell = new_cell(b.f[0])
+        r = e.call_closure(b.f[1], [stmt_cell])
+        if r.var == 'Err':
+            return r
+        return ok(Struct('FilesRows', [stmt_cell, r.f[0]]))
+    eng.stubs['FilesRowsTryBuilder::try_build'] = try_build
+
+    def with_rows_mut(e, ci, a, sp):
+        fr = deref_all(a[0])
+        return e.call_closure(a[1], [Ref(fr.f, 1)])
+    eng.stubs['FilesRows::with_rows_mut'] = with_rows_mut
